@@ -1,6 +1,7 @@
 package main
 
 import (
+	"go/token"
 	"strings"
 
 	"golang.org/x/tools/go/ssa"
@@ -276,6 +277,43 @@ func runC20Rest(c *Ctx) {
 			}
 		}
 		c.Check("C20-R4", "UnminedTxs-returns-DependencySort", um.Pos(), okRet && p.reachSet(um)[ds], "Store.UnminedTxs does not return the dependency-sorted list")
+		// the sort emits a transaction when its in-degree reaches zero, one decrement per incoming edge: while the graph
+		// is built, "in-degree + 1" and "append an out-edge to the parent" must be executed together in every iteration,
+		// otherwise a node's count never reaches zero and it (with its descendants) silently drops out of the re-offer list
+		if mg := p.Func("wtxmgr", "", "makeGraph"); mg != nil {
+			nCo := 0
+			for _, l := range loopsRangingOver(mg, "TxIn") {
+				var inc, edge ssa.Instruction
+				for b := range l.Blocks {
+					for _, ins := range b.Instrs {
+						switch x := ins.(type) {
+						case *ssa.BinOp:
+							if k, ok := constInt(x.Y); ok && k == 1 && x.Op == token.ADD {
+								if _, f, _, okf := fieldOf(stripConv(x.X)); okf && f == "inDegree" {
+									inc = x
+								}
+							}
+						case *ssa.Call:
+							if calleeShort(&x.Call) == "append" && len(x.Call.Args) > 0 {
+								if _, f, _, okf := fieldOf(stripConv(x.Call.Args[0])); okf && f == "outEdges" {
+									edge = x
+								}
+							}
+						}
+					}
+				}
+				if inc == nil || edge == nil {
+					continue
+				}
+				nCo++
+				bad := l.CoExecutedPerIteration(p, inc, edge)
+				c.Check("C20-R4", "dependency-graph-indegree-equals-edges", l.Header.Instrs[0].Pos(), bad == "",
+					"makeGraph counts an incoming edge without recording it at the parent (or the reverse): "+bad+"; the node's in-degree never reaches zero and DependencySort drops it and its descendants from the rebroadcast list")
+			}
+			c.Floor("C20-R4", "edge-building loops in makeGraph", nCo, 1)
+		} else {
+			c.Unresolved("C20-R4", "wtxmgr.makeGraph")
+		}
 		for _, l := range loopsOf(um) {
 			if l.Kind == "for" {
 				continue
